@@ -23,7 +23,7 @@ SPECD = os.path.join(vlib.SPEC, "timers")
 # tick lengths (ns) used to concretise one model tick; the first two are always used, one more is seeded
 TICKS = [1_000_000, 1_000_003, 1_000_000_000, 1, 999, 86_400_000_000_000 // 1000, 123_456_789]
 
-SW_ACTIONS = ["Advance", "Start", "StartOwned", "Stop", "DropGuard", "Overwrite", "Discard", "Clear"]
+SW_ACTIONS = ["Advance", "Start", "StartOwned", "Stop", "DropGuard", "DropUnwind", "Overwrite", "Discard", "Clear"]
 TM_ACTIONS = ["Advance", "AdvanceB", "SetAmbient", "TimerNew", "TimerStop", "TsNew", "TocNew", "TocClose"]
 
 
@@ -172,7 +172,8 @@ def run(prop, tier):
         "is not exercised",
         "while a borrowed TimerGuard lives the stopwatch cannot be closed (Rust borrow rule): those steps are checked at the "
         "first step after the guard is gone",
-        "concurrent part: owned guards are completed (drop / stop / discard) at the same moment on 2-16 OS threads while the clock "
+        "a guard dropped by a panic unwinding through its scope is a completed span (the panic is raised and caught by the harness)",
+        "concurrent part: owned guards are completed (drop / stop / unwinding / discard) at the same moment on 2-16 OS threads while the clock "
         "stands still; concurrent overwrite / clear are not exercised (their result depends on an unobservable order); a lost "
         "update that needs a window never hit in the recorded rounds is not seen",
         "exhaustive only up to the depth / slot / advance constants of the MC_*.cfg files; longer histories by random walks",
@@ -195,7 +196,7 @@ def run(prop, tier):
         chk.add_model("Stopwatch/MC_tm.cfg", r)
         # owned guards completed on several threads: every interleaving of the critical sections
         r = vlib.model_check(SPECD, "StopwatchConc", "MC_conc.cfg", timeout=600)
-        check_coverage(r, ["Complete", "Discard"], "StopwatchConc")
+        check_coverage(r, ["Complete", "CompleteByUnwind", "Discard"], "StopwatchConc")
         chk.add_model("StopwatchConc/MC_conc.cfg", r)
         r = vlib.tlc(SPECD, "StopwatchConc", "MC_conc_neg.cfg", timeout=600)
         if not r.invariant_violated:
@@ -249,7 +250,8 @@ def run(prop, tier):
                  "owned_acts_while_borrowed", "borrowed_guard_on_shared_repr", "toc_close", "timer_stop_repeated_or_immediate",
                  "sw_op_under_override_b", "sw_op_on_other_thread", "timer_op_under_different_override",
                  "toc_closed_under_different_override", "toc_closed_on_other_thread_with_different_override",
-                 "explicit_source_under_other_override", "env_no_override"]:
+                 "explicit_source_under_other_override", "env_no_override",
+                 "owned_guard_dropped_by_unwinding", "borrowed_guard_dropped_by_unwinding"]:
         if not cases.get(need):
             raise vlib.ToolError(f"no generated behaviour reached the case '{need}'")
     return chk.finish()
